@@ -1,5 +1,5 @@
 import BHS.Props.C04
-import BHS.Props.SqlShape
+import BHS.Props.SqlShape.Query
 import BHS.Props.HeaderSvcGen
 open BHS.Props.C04
 #print axioms C04_anc_iff_chainTo
